@@ -754,6 +754,58 @@ theorem mriSystem_weighted_average (pstar : Rat) (rows : List (Rat × Rat × Rat
     (lsum (rows.map fun (d, _, z) => d * (pstar + z))) = _
   rw [e1, e2]
 
+/-- resilience.rst:346 "water service availability is always 1 (for junctions that have positive demand) or NaN (for
+junctions that have demand equal to 0)" when the simulated demand equals the expected demand -/
+theorem wsa_met_demand (d : Rat) : wsa d d = if d = 0 then none else some 1 := by
+  unfold wsa divz
+  split_ifs with h
+  · rfl
+  · rw [div_self h]
+
+/-- resilience.rst:284 "the ratio of delivered demand to the expected demand": a delivered demand between 0 and the
+expected demand gives a value between 0 and 1 -/
+theorem wsa_range (d e : Rat) (h0 : 0 ≤ d) (h1 : d ≤ e) (he : 0 < e) :
+    ∃ w, wsa d e = some w ∧ 0 ≤ w ∧ w ≤ 1 := by
+  refine ⟨d / e, by simp [wsa, divz, ne_of_gt he], div_nonneg h0 (le_of_lt he), ?_⟩
+  rw [div_le_one he]; exact h1
+
+/-- hydraulic.py:177-179 "a measure of surplus power at each node": the numerator of the Todini index is the sum over
+the junctions of demand × (pressure − P*), the pressure surplus — in particular it is ≥ 0 when every junction with a
+non-negative demand has at least the threshold pressure -/
+theorem todini_numerator_surplus (pstar : Rat) (js : List JRow) :
+    lsum (js.map fun j => j.d * j.h) - lsum (js.map fun j => j.d * (pstar + (j.h - j.p)))
+      = lsum (js.map fun j => j.d * (j.p - pstar)) := by
+  rw [← lsum_map_sub]
+  apply lsum_map_congr
+  intro j _
+  ring
+
+theorem lsum_nonneg (l : List Rat) (h : ∀ x ∈ l, 0 ≤ x) : 0 ≤ lsum l := by
+  induction l with
+  | nil => simp [lsum_nil]
+  | cons a t ih =>
+    rw [lsum_cons]
+    exact add_nonneg (h a (List.mem_cons_self ..)) (ih fun x hx => h x (List.mem_cons_of_mem _ hx))
+
+theorem todini_numerator_nonneg (pstar : Rat) (js : List JRow) (h : ∀ j ∈ js, 0 ≤ j.d ∧ pstar ≤ j.p) :
+    0 ≤ lsum (js.map fun j => j.d * j.h) - lsum (js.map fun j => j.d * (pstar + (j.h - j.p))) := by
+  rw [todini_numerator_surplus]
+  apply lsum_nonneg
+  intro x hx
+  obtain ⟨j, hj, rfl⟩ := List.mem_map.mp hx
+  obtain ⟨h1, h2⟩ := h j hj
+  exact mul_nonneg h1 (by linarith)
+
+/-- hydraulic.py:236-238 "surplus power available at demand junctions": per junction the index has the sign of the
+pressure surplus (for a positive required head P* + z) -/
+theorem mriJunction_sign (pstar p z : Rat) (hz : 0 < pstar + z) :
+    ∃ m, mriJunction pstar p z = some m ∧ (0 ≤ m ↔ pstar ≤ p) := by
+  refine ⟨(p - pstar) / (pstar + z), mriJunction_eq pstar p z (ne_of_gt hz), ?_⟩
+  rw [div_nonneg_iff]
+  constructor
+  · rintro (⟨h, _⟩ | ⟨_, h⟩) <;> linarith
+  · intro h; left; exact ⟨by linarith, le_of_lt hz⟩
+
 /-- a network without reservoirs and pumps (fed by tanks): no input power term is left -/
 theorem todini_no_sources (pstar : Rat) (js : List JRow) :
     todini pstar js [] [] = divz (lsum (js.map fun j => j.d * j.h) - lsum (js.map fun j => j.d * (pstar + (j.h - j.p))))
